@@ -11,10 +11,10 @@ package main
 // buffer the analysis does not understand.
 
 import (
-	"os"
 	"fmt"
 	"go/token"
 	"go/types"
+	"os"
 	"sort"
 	"strings"
 
